@@ -1414,6 +1414,10 @@ func runC10(c *core.Ctx) {
 		t0 = time.Now()
 	}
 
+	if run("wide-regions") {
+		c10WideRegions(c)
+		lap("wide-regions")
+	}
 	if run("decoded-region-bounds") {
 		c10DecodedRegions(c)
 		lap("decoded-region-bounds")
